@@ -265,6 +265,8 @@ def run(ctx: Ctx, rep: Report) -> None:
 
     sub = ctx.sub_run("c11", rep)
     rep.adopt_rules(sub, "C06-R6", ["C11-R2"])
+    # the pythonic view of a value is total: every tick count (0 included) becomes a timedelta
+    rep.adopt_rules(ctx.sub_run("c17", rep), "C06-R5", ["C17-R2"])
 
     # ------------------------------------------------------------ R4
     integer_dr = ctx.u.cls("x690.types:Integer").methods.get("decode_raw")
@@ -285,7 +287,7 @@ def run(ctx: Ctx, rep: Report) -> None:
     from . import c17
 
     sub = ctx.sub_run("c17", rep)
-    rep.adopt_rules(sub, "C06-R4", ["C17-R4"])
+    rep.adopt_rules(sub, "C06-R4", ["C17-R4", "C17-R1"])
 
 
 def check_value_delivery(ctx: Ctx, rep: Report) -> None:
